@@ -61,6 +61,7 @@ func init() {
 		Gen:      func(r *kit.RNG, tier string) any { return genC12(r) },
 		Blank:    func() any { return &C12Scenario{} },
 		Run:      func(sc any, tr *kit.Trace) *kit.Result { return runC12(sc.(*C12Scenario), tr) },
+		Warmup:   true, // the detached IPv6 name-server helper (v6-fanout) runs beside the request with more than one P
 		PerChunk: 30,
 		Quick:    1500,
 		Thorough: 60000,
